@@ -7,6 +7,8 @@ import Msmart.Spec.V2Spec
 import Msmart.Model.Reassembly
 import Msmart.Model.PacketV3
 import Msmart.Spec.V3Spec
+import Msmart.Model.Discover
+import Msmart.Spec.DiscoverSpec
 
 namespace Msmart.Driver
 open Msmart Msmart.Model
@@ -52,6 +54,23 @@ def lanOp (op : String) (t : List String) : Option String :=
     match Spec.V3.parseHandshakeRequest (kvHex t "packet") with
     | none => some "none"
     | some (c, tok) => some s!"ok ctr={c} token={toHex tok}"
+  | "discover_info" =>
+    some (rStr (fun i => s!"ok port={i.port} id={i.id} sn={toHex i.sn} name={toHex i.name} type={i.dtype} version={i.version}")
+      (getDeviceInfo (kvNat t "version") (kvHex t "data")))
+  | "discover_version" => some (rStr toString (getDeviceVersion (kvBool t "xml") (kvHex t "data")))
+  | "discover_run" =>
+    -- dgrams=host:xml:hex,host:xml:hex
+    let ds := (((kvGet t "dgrams").getD "").splitOn ",").filterMap (fun s =>
+      match s.splitOn ":" with
+      | [h, x, d] => do let hn ← h.toNat?; let b ← ofHex d; pure ({ host := hn, isXml := x = "1", data := b } : Dgram)
+      | _ => none)
+    some (";".intercalate ((discoverRun ds).map (fun (h, i) =>
+      s!"{h}|port={i.port} id={i.id} sn={toHex i.sn} name={toHex i.name} type={i.dtype} version={i.version}")))
+  | "spec_discover_reply" =>
+    let b := Spec.Discover.body (kvHex t "iprev") (kvNat t "port") (kvHex t "sn") (kvHex t "name") (kvHex t "extra")
+    let v2 := Spec.Discover.replyV2 (kvHex t "pre") (kvNat t "id") (kvHex t "mid") b (kvHex t "tail")
+    if kvNat t "version" = 3 then some (toHex (Spec.Discover.replyV3 (kvHex t "prefix") v2 (kvHex t "suffix")))
+    else some (toHex v2)
   | "udpid" => some (toHex (udpid (kvHex t "id")))
   | _ => none
 
